@@ -78,6 +78,18 @@ def run(tier):
     rep.rule('R09.4', 'closure: every abstract state (mapper known?, set of STALE bytes) reachable after the Reset is explored', floor=4)
     check_state_for_iface(rep, prog, 'R09.1')
 
+    info = recovery(rep, prog, 'R09')
+    rep.analysed.update(info)
+    return finish(rep, 'proof',
+                  'Non-interference: (1) fresh record is all-zero; (2) after a topology Reset each field (list from the record layout) is zero or untouched; '
+                  '(3) with the untouched fields as unconstrained STALE symbols, all 65 536 (ToS,opcode) cells are interpreted: no STALE symbol occurs in an undecided branch '
+                  'condition, a transmitted byte, a length, a pause or an allocation size, and a re-established mapper overwrites them. Inductive over continuations.',
+                  'abstract interpretation + taint (origin) tracking of pre-Reset state through all dispatch cells', exhaustive=True)
+
+
+def recovery(rep, prog, P):
+    """Steps 2 and 3 of the non-interference argument (shared with C18's 'Reset after a fault' clause): the rules are
+    named P.2 (Reset cell), P.3 (no dependence on STALE data), P.4 (closure over reachable abstract states)."""
     # ---- step 2: the Reset cell
     fs = FrameSetup(prog, mtu_ok=True)
     res, obs, stats = run_regions(fs, regions=['topo.rest'])
@@ -103,24 +115,24 @@ def run(tier):
                 v = st.canon(mem.load_scalar(st, so, C(off), ty))
                 if v == ZERO:
                     cells[off] = (n, ZERO, 'fresh')
-                    rep.ok('R09.2', sample={'field': name, 'after_reset': 'NULL'})
+                    rep.ok(P + '.2', sample={'field': name, 'after_reset': 'NULL'})
                 else:
-                    rep.fail('R09.2', 'reset|%s' % name, 'after a topology Reset the pointer field %s still holds %s (fresh value is NULL)' % (name, short(v)),
+                    rep.fail(P + '.2', 'reset|%s' % name, 'after a topology Reset the pointer field %s still holds %s (fresh value is NULL)' % (name, short(v)),
                              function='parseFrame', file='lltdResponder/lltdBlock.c')
                 continue
             if all(b == ZERO for b in bs):
                 cells[off] = (n, ZERO, 'fresh')
-                rep.ok('R09.2', sample={'field': name, 'after_reset': 0})
+                rep.ok(P + '.2', sample={'field': name, 'after_reset': 0})
             elif all(b == ('in', 'st', off + i) for i, b in enumerate(bs)):
                 cells[off] = (n, None, 'stale')
-                rep.ok('R09.2', sample={'field': name, 'after_reset': 'STALE (must be dead: step 3)'})
+                rep.ok(P + '.2', sample={'field': name, 'after_reset': 'STALE (must be dead: step 3)'})
             else:
-                rep.fail('R09.2', 'reset|%s' % name, 'after a topology Reset field %s holds %s: neither its fresh value nor untouched'
+                rep.fail(P + '.2', 'reset|%s' % name, 'after a topology Reset field %s holds %s: neither its fresh value nor untouched'
                          % (name, [short(b) for b in bs][:4]), function='parseFrame', file='lltdResponder/lltdBlock.c')
         post = cells
         # resources released
         live = live_heap(fs, st)
-        rep.check(not live, 'R09.2', 'reset|live-heap', 'objects still allocated after a topology Reset: %s' % live,
+        rep.check(not live, P + '.2', 'reset|live-heap', 'objects still allocated after a topology Reset: %s' % live,
                   function='parseFrame', file='lltdResponder/lltdBlock.c')
     if nreset == 0 or post is None:
         raise AnalysisBroken('no (ToS 0, Reset) path found')
@@ -162,11 +174,11 @@ def run(tier):
                 nstates += 1
                 for e, ctx in effects(st, 'sleep'):
                     bad = stale_atoms(e[1])
-                    rep.check(not bad, 'R09.3', '%s|sleep' % region, 'pause duration depends on pre-Reset state %s' % [short(a) for a in bad[:3]],
+                    rep.check(not bad, P + '.3', '%s|sleep' % region, 'pause duration depends on pre-Reset state %s' % [short(a) for a in bad[:3]],
                               function='parseFrame', file='lltdResponder/lltdBlock.c')
                 for e, ctx in effects(st, 'malloc'):
                     bad = stale_atoms(e[2])
-                    rep.check(not bad, 'R09.3', '%s|malloc' % region, 'allocation size depends on pre-Reset state', function='parseFrame', file='lltdResponder/lltdBlock.c')
+                    rep.check(not bad, P + '.3', '%s|malloc' % region, 'allocation size depends on pre-Reset state', function='parseFrame', file='lltdResponder/lltdBlock.c')
                 for sn, ctx in sends(st):
                     S = Snap(st, sn)
                     bad = stale_atoms(S.length)
@@ -177,7 +189,7 @@ def run(tier):
                             src = reg[2]
                             if isinstance(src, tuple) and src and src[0] == 'memcpy' and src[1] in ('heap:cached.icon', 'SEEN'):
                                 bad.append(('in', 'stale', src[1]))
-                    rep.check(not bad, 'R09.3', '%s|send' % region,
+                    rep.check(not bad, P + '.3', '%s|send' % region,
                               'a frame transmitted after the Reset contains data from before it: %s (abstract state %s)' % (sorted(set(short(a) for a in bad))[:4], label),
                               function=S.d['fn'], file='lltdResponder/lltdBlock.c',
                               sample={'region': region, 'sent_by': S.d['fn'], 'abstract_state': label} if len(rep.samples) < 30 else None)
@@ -185,7 +197,7 @@ def run(tier):
                 # (in memory or effects) from the sibling with the complementary constraint - states that
                 # re-join identically have had such constraints joined away by the engine
                 dep = constrained_stale(st)
-                rep.check(not dep, 'R09.3', '%s|control' % region,
+                rep.check(not dep, P + '.3', '%s|control' % region,
                           'after a Reset the outcome of handling a frame (cell %s x %s) still depends on a test of pre-Reset state: %s (abstract state %s)'
                           % (st.dom(TOS), st.dom(OPC), dep[:3], label), function='parseFrame', file='lltdResponder/lltdBlock.c')
                 # successor abstract state
@@ -204,16 +216,11 @@ def run(tier):
                     if left and nxt not in seen and len(seen) < 40:
                         seen.add(nxt)
                         work.append(nxt)
-                rep.ok('R09.4')
-            rep.ok('R09.3')
+                rep.ok(P + '.4')
+            rep.ok(P + '.3')
     if len(seen) >= 40:
         rep.broke('abstract state space of the post-Reset closure did not converge')
     stale_fields = sorted(set(field_of[b] for b in stale0))
-    fail_obligations(rep, obs2, 'R09.ub', kinds=('uninit-read',))
-    rep.analysed.update({'fields': [f[0] for f in srec.fields], 'stale_fields': stale_fields, 'abstract_states_explored': explored,
-                         'post_reset_final_states': nstates})
-    return finish(rep, 'proof',
-                  'Non-interference: (1) fresh record is all-zero; (2) after a topology Reset each field (list from the record layout) is zero or untouched; '
-                  '(3) with the untouched fields as unconstrained STALE symbols, all 65 536 (ToS,opcode) cells are interpreted: no STALE symbol occurs in an undecided branch '
-                  'condition, a transmitted byte, a length, a pause or an allocation size, and a re-established mapper overwrites them. Inductive over continuations.',
-                  'abstract interpretation + taint (origin) tracking of pre-Reset state through all dispatch cells', exhaustive=True)
+    fail_obligations(rep, obs2, P + '.ub', kinds=('uninit-read',))
+    return {'fields': [f[0] for f in srec.fields], 'stale_fields': stale_fields, 'abstract_states_explored': explored,
+            'post_reset_final_states': nstates}
